@@ -451,3 +451,27 @@ impl HandshakeProbe {
             .map(|(rx, tx)| (rx.as_millis() as u64, tx.as_millis() as u64))
     }
 }
+
+// ---------------------------------------------------------------------------------
+// Scheduling points: no-ops unless the harness installs a delay, in which case the calling
+// thread sleeps there - a legitimate schedule (the thread may be preempted at that point),
+// made reproducible.
+// ---------------------------------------------------------------------------------
+static SCHED_DELAY_US: [std::sync::atomic::AtomicU64; 4] = [
+    std::sync::atomic::AtomicU64::new(0),
+    std::sync::atomic::AtomicU64::new(0),
+    std::sync::atomic::AtomicU64::new(0),
+    std::sync::atomic::AtomicU64::new(0),
+];
+
+/// site 1: between two receives of the per-channel drain loop (handle_channel_readable)
+pub fn set_sched_delay(site: usize, micros: u64) {
+    SCHED_DELAY_US[site].store(micros, std::sync::atomic::Ordering::SeqCst);
+}
+
+pub(crate) fn sched_point(site: usize) {
+    let us = SCHED_DELAY_US[site].load(std::sync::atomic::Ordering::Relaxed);
+    if us > 0 {
+        std::thread::sleep(std::time::Duration::from_micros(us));
+    }
+}
